@@ -55,6 +55,9 @@ pub enum Behaviour {
     Reject,
     /// accept iff the value passed equals this
     ExpectEq(Value),
+    /// reject with a particular PasetoClaimError variant (Unexpected, Invalid, Missing, Expired,
+    /// RFC3339Date, UseBeforeAvailable, Reserved, DuplicateTopLevelPayloadClaim, CustomValidation)
+    RejectAs(String),
 }
 
 #[derive(Clone, Debug, PartialEq)]
@@ -201,14 +204,28 @@ fn slot_call(slot: usize, key: &str, value: &Value) -> Result<(), PasetoClaimErr
         let beh = s.validator_table.get(&slot).cloned().unwrap_or(Behaviour::Accept);
         let ok = match &beh {
             Behaviour::Accept => true,
-            Behaviour::Reject => false,
+            Behaviour::Reject | Behaviour::RejectAs(_) => false,
             Behaviour::ExpectEq(v) => v == value,
         };
         s.validator_calls.push(ValidatorCall { slot, key: key.to_string(), value: value.clone(), returned_ok: ok });
         if ok {
             Ok(())
         } else {
-            Err(PasetoClaimError::CustomValidation(key.to_string()))
+            let k = key.to_string();
+            Err(match &beh {
+                Behaviour::RejectAs(v) => match v.as_str() {
+                    "Unexpected" => PasetoClaimError::Unexpected(k),
+                    "Invalid" => PasetoClaimError::Invalid(k, "expected".into(), "received".into()),
+                    "Missing" => PasetoClaimError::Missing(k),
+                    "Expired" => PasetoClaimError::Expired,
+                    "RFC3339Date" => PasetoClaimError::RFC3339Date(k),
+                    "UseBeforeAvailable" => PasetoClaimError::UseBeforeAvailable(k),
+                    "Reserved" => PasetoClaimError::Reserved(k),
+                    "DuplicateTopLevelPayloadClaim" => PasetoClaimError::DuplicateTopLevelPayloadClaim(k),
+                    _ => PasetoClaimError::CustomValidation(k),
+                },
+                _ => PasetoClaimError::CustomValidation(k),
+            })
         }
     })
 }
